@@ -27,6 +27,9 @@ type CutSpec struct {
 	// MinTargets: the number of target instructions that must exist in Fn
 	// (statically, ignoring paths); fewer means the anchor disappeared.
 	MinTargets int
+	// Track: extra values whose phis the path search resolves per path
+	// (phis feeding branch conditions and return operands always are).
+	Track []ssa.Value
 }
 
 type cutState struct {
@@ -44,6 +47,7 @@ type CutResult struct {
 	States   int
 	Targets  int // static count of target instructions (identity resolver)
 	Capped   bool
+	Starts   int // number of start states (edges matching Start)
 }
 
 const cutStateCap = 400000
@@ -56,7 +60,7 @@ func valKey(v ssa.Value) string {
 }
 
 // trackedPhis: phis feeding branch conditions or return operands.
-func trackedPhis(fn *ssa.Function) map[*ssa.Phi]bool {
+func trackedPhis(fn *ssa.Function, extra []ssa.Value) map[*ssa.Phi]bool {
 	tr := map[*ssa.Phi]bool{}
 	var visit func(v ssa.Value, depth int)
 	visit = func(v ssa.Value, depth int) {
@@ -84,6 +88,9 @@ func trackedPhis(fn *ssa.Function) map[*ssa.Phi]bool {
 		case *ssa.ChangeInterface:
 			visit(x.X, depth+1)
 		}
+	}
+	for _, e := range extra {
+		visit(e, 0)
 	}
 	for _, b := range fn.Blocks {
 		if len(b.Instrs) == 0 {
@@ -189,7 +196,7 @@ func RunCut(sp *CutSpec) CutResult {
 			}
 		}
 	}
-	tr := trackedPhis(fn)
+	tr := trackedPhis(fn, sp.Track)
 	seen := map[string]bool{}
 	var queue []*cutState
 	push := func(st *cutState) {
@@ -218,6 +225,7 @@ func RunCut(sp *CutSpec) CutResult {
 			for si := 0; si < 2; si++ {
 				if anyFact(condFacts(ifi.Cond, si == 0, idRes), sp.Start) {
 					em := enter(tr, nil, b, b.Succs[si], si)
+					r.Starts++
 					push(&cutState{b: b.Succs[si], envMap: em, env: envKey(em), parent: &cutState{b: b}})
 				}
 			}
@@ -315,6 +323,8 @@ func (c *Ctx) Cut(sp CutSpec) {
 		min = 0
 	}
 	switch {
+	case sp.Start != nil && sp.StartAfter == nil && r.Starts == 0:
+		c.add("violated", rule, name, sp.Label, pos, "anchor lost: no branch edge in the function carries the start condition", r.States)
 	case r.Capped:
 		o := c.add("undecided", rule, name, sp.Label, pos, "state cap exceeded", r.States)
 		_ = o
